@@ -22,6 +22,7 @@ type c05Scenario struct {
 	StreamErrs []int // message indices (per relay op counter) at which a stream op fails
 	FaultUntil time.Duration
 	Idle       time.Duration // both writers pause this long half-way (keepalive pings flow meanwhile)
+	IdleAfter  int           // > 0: the pause comes after exactly that many writes (of the longer direction) instead
 	// PartialFirst > 0: a first connection on which the client writes one record of that many bytes,
 	// the server reads only 10 of them, both sides close; the transfer then runs on the next connection
 	PartialFirst int
@@ -33,6 +34,9 @@ type c05Scenario struct {
 	WriteDeadline time.Duration
 	// FaultsAfterConnect: the fault plan (and FaultUntil) starts when the secured connection is up
 	FaultsAfterConnect bool
+	// SkipOnTimeout (with WriteDeadline): a Write that times out is not repeated; the application
+	// goes on with its next message. What the peer reads must be exactly the acknowledged writes
+	SkipOnTimeout bool
 	// HeldSendFirst: a first connection on which the relay exerts back pressure on the server's
 	// send stream; the server closes that connection while one of its relay sends is pending. Close
 	// must return, and the transfer then runs on the next connection
@@ -171,11 +175,31 @@ func runC05(sc *c05Scenario) *c05Result {
 		go func() { // writer
 			defer wg.Done()
 			off := 0
+			var acked []byte
 			for i, n := range sc.Writes[d] {
-				if sc.Idle > 0 && i == len(sc.Writes[d])/2 {
+				if sc.Idle > 0 && ((sc.IdleAfter == 0 && i == len(sc.Writes[d])/2) || (sc.IdleAfter > 0 && i == sc.IdleAfter)) {
 					time.Sleep(sc.Idle)
 				}
 				var err error
+				if sc.SkipOnTimeout {
+					ends[d].Mailbox.SetWriteDeadline(time.Now().Add(sc.WriteDeadline))
+					var k int
+					k, err = ends[d].Conn.Write(all[off : off+n])
+					if err == nil && k == n {
+						acked = append(acked, all[off:off+n]...)
+					}
+					mu.Lock()
+					res.Sent[d] = acked
+					mu.Unlock()
+					if err != nil && !strings.Contains(err.Error(), "timeout") {
+						mu.Lock()
+						res.WriteErr[d] = err.Error()
+						mu.Unlock()
+						return
+					}
+					off += n
+					continue
+				}
 				for attempt := 0; attempt < 6; attempt++ {
 					if sc.WriteDeadline > 0 {
 						ends[d].Mailbox.SetWriteDeadline(time.Now().Add(sc.WriteDeadline))
@@ -342,6 +366,27 @@ func c05Scenarios() []*c05Scenario {
 		}
 		scs = append(scs, &c05Scenario{Name: fmt.Sprintf("write-deadline-%d", n), Seed: 970 + i,
 			Writes: [2][]int{w, {9}}, ReadBuf: [2]int{32768, 4096}, DropPct: 100, FaultUntil: 5 * time.Second, FaultsAfterConnect: true, WriteDeadline: time.Second})
+	}
+	// ... and an application that does not repeat a timed-out Write but goes on with the next message
+	{
+		w := make([]int, 24)
+		for k := range w {
+			w[k] = 1000
+		}
+		scs = append(scs, &c05Scenario{Name: "write-deadline-skip", Seed: 975,
+			Writes: [2][]int{w, {9}}, ReadBuf: [2]int{32768, 4096}, DropPct: 100, FaultUntil: 5 * time.Second, FaultsAfterConnect: true,
+			WriteDeadline: time.Second, SkipOnTimeout: true})
+	}
+	// the server's keepalive ping carries every sequence number once (21 consecutive record counts
+	// cover every residue of the sequence space): k records written, an idle period longer than the
+	// ping interval, then more records
+	for i, k := range []int{1, 2, 3, 4, 5, 6, 7, 8, 9, 10, 11, 12, 13, 14, 15, 16, 17, 18, 19, 20, 21} {
+		w := make([]int, k+3)
+		for j := range w {
+			w[j] = 50
+		}
+		scs = append(scs, &c05Scenario{Name: fmt.Sprintf("ping-after-%d-records", k), Seed: 980 + i,
+			Writes: [2][]int{{9}, w}, ReadBuf: [2]int{4096, 32768}, Idle: 6500 * time.Millisecond, IdleAfter: k})
 	}
 	// idle periods longer than the keepalive interval (server pings after 5 s, client after 7 s) in
 	// the middle of a transfer, without relay faults
